@@ -125,25 +125,45 @@ def _flag_value(e):
     _err("regex flags %s are not a literal" % ast.unparse(e))
 
 
-def _pattern_literal(e, fn):
+def _resolve_const(e, fn, depth=0):
+    """follow a name / self.X / APK.X / cls.X to its single defining expression
+    (local, class attribute, module constant); other expressions are returned unchanged"""
+    if depth > 4:
+        _err("%s: constant definition chain too deep" % fn.qualname)
+    w = getattr(fn, "world", None)
     if isinstance(e, ast.Name):
-        e = fn.local(e.id)
+        if fn.assignments(e.id) or e.id in fn.params():
+            return _resolve_const(fn.local(e.id), fn, depth + 1)
+        if w is not None and e.id in w.info.get("module_consts", {}):
+            return _resolve_const(w.info["module_consts"][e.id], fn, depth + 1)
+        return e
+    if isinstance(e, ast.Attribute) and isinstance(e.value, ast.Name) and w is not None:
+        base = e.value.id
+        if base in ("self", "cls", w.info.get("class_name", "APK")) and e.attr in w.info.get("class_attrs", {}):
+            if e.attr in w.info.get("attr_stores", ()):
+                _err("%s: %s is reassigned through an instance/class attribute store (outside the fragment)" % (fn.qualname, ast.unparse(e)))
+            return _resolve_const(w.info["class_attrs"][e.attr], fn, depth + 1)
+    return e
+
+
+def _pattern_literal(e, fn):
+    e = _resolve_const(e, fn)
     if isinstance(e, ast.Constant) and isinstance(e.value, (str, bytes)):
         return e.value
     _err("%s: regex pattern %s is not a literal" % (fn.qualname, ast.unparse(e)))
 
 
 def _compiled(e, fn):
-    """expression denoting a compiled pattern -> RL.Regex"""
-    if isinstance(e, ast.Name):
-        e = fn.local(e.id)
+    """expression denoting a compiled pattern (local, class attribute or module constant) -> RL.Regex"""
+    src = e
+    e = _resolve_const(e, fn)
     if isinstance(e, ast.Call) and dotted(e.func) == "re.compile" and e.args:
         flags = e.args[1] if len(e.args) > 1 else next((k.value for k in e.keywords if k.arg == "flags"), None)
         try:
             return RL.Regex(_pattern_literal(e.args[0], fn), _flag_value(flags))
         except RL.Unsupported as u:
             _err("%s: regex %s uses an unsupported construct (%s)" % (fn.qualname, ast.unparse(e), u))
-    _err("%s: %s is not re.compile(<literal>)" % (fn.qualname, ast.unparse(e)))
+    _err("%s: %s is not re.compile(<literal>)" % (fn.qualname, ast.unparse(src)))
 
 
 def _regex_call(call, var, fn):
@@ -466,6 +486,242 @@ def check_get_all_dex(sink, world):
     sink.count("functions")
 
 
+# ---------------------------------------------------------------------------
+# get_file: abstract execution under the four possible answers of the archive
+# ---------------------------------------------------------------------------
+WORLDS = (
+    ("absent", "the archive has no such entry (zip.read raises KeyError)"),
+    ("empty", "the entry exists and is zero bytes long"),
+    ("nonempty", "the entry exists and has content"),
+    ("unreadable", "the entry exists but reading it fails with an error other than KeyError"),
+)
+BUILTIN_EXC = {
+    "KeyError": ("KeyError", "LookupError", "Exception", "BaseException"),
+    "ArchiveReadError": ("ArchiveReadError", "Exception", "BaseException"),  # stands for zlib.error, struct.error, ...
+    "ValueError": ("ValueError", "Exception", "BaseException"),
+    "TypeError": ("TypeError", "Exception", "BaseException"),
+    "IndexError": ("IndexError", "LookupError", "Exception", "BaseException"),
+    "LookupError": ("LookupError", "Exception", "BaseException"),
+    "Exception": ("Exception", "BaseException"),
+}
+
+CONTENT, WRONG, NONE_, UNKNOWN = ("content",), ("other-content",), ("const", None), ("unknown",)
+
+
+class _Raised(Exception):
+    def __init__(self, name, node):
+        self.name = name
+        self.node = node
+
+
+class _Returned(Exception):
+    def __init__(self, value, node):
+        self.value = value
+        self.node = node
+
+
+class FileExec:
+    """deterministic abstract execution of get_file (helpers of the class inlined) in one world"""
+
+    def __init__(self, world, fn, wname):
+        self.world = world
+        self.fn = fn
+        self.w = wname
+        self.trace = []  # decisive conditions taken
+        self.reads = 0
+
+    def mro(self, name):
+        if name in BUILTIN_EXC:
+            return BUILTIN_EXC[name]
+        out, cur, seen = [], name, set()
+        classes = self.world.info.get("classes", {})
+        while cur in classes and cur not in seen:
+            seen.add(cur)
+            out.append(cur)
+            bases = classes[cur]
+            cur = bases[0] if bases else None
+        if cur in BUILTIN_EXC:
+            out += list(BUILTIN_EXC[cur])
+        elif cur:
+            out += [cur, "Exception", "BaseException"]
+        return tuple(out) or (name, "Exception", "BaseException")
+
+    # -- values
+    def ev(self, e, env, fn, depth):
+        if isinstance(e, ast.Constant):
+            return ("const", e.value)
+        if isinstance(e, ast.Name):
+            if e.id in env:
+                return env[e.id]
+            return UNKNOWN
+        if isinstance(e, ast.NamedExpr):
+            v = self.ev(e.value, env, fn, depth)
+            env[e.target.id] = v
+            return v
+        if isinstance(e, ast.IfExp):
+            return self.ev(e.body if self.truth(e.test, env, fn, depth) else e.orelse, env, fn, depth)
+        if isinstance(e, ast.Call):
+            d = dotted(e.func)
+            if d == "self.zip.read":
+                self.reads += 1
+                arg = self.ev(e.args[0], env, fn, depth) if len(e.args) == 1 and not e.keywords else UNKNOWN
+                if self.w == "absent":
+                    raise _Raised("KeyError", e)
+                if self.w == "unreadable":
+                    raise _Raised("ArchiveReadError", e)
+                return CONTENT if arg == ("name",) else WRONG
+            if d and d.startswith("self.") and d.count(".") == 1 and d[5:] in self.world.info.get("methods", {}) and d[5:] not in ("get_files",):
+                if depth >= 3:
+                    _err("get_file: helper calls nest deeper than 3")
+                h = Fn("APK." + d[5:], self.world.info["methods"][d[5:]])
+                h.world = self.world
+                hp = h.params()[1:]
+                if e.keywords or len(e.args) > len(hp) or any(isinstance(a, ast.Starred) for a in e.args):
+                    _err("get_file: call %s is outside the fragment" % ast.unparse(e))
+                henv = {}
+                defaults = dict(zip(reversed(hp), reversed(h.node.args.defaults)))
+                for i, pn in enumerate(hp):
+                    if i < len(e.args):
+                        henv[pn] = self.ev(e.args[i], env, fn, depth)
+                    elif pn in defaults and isinstance(defaults[pn], ast.Constant):
+                        henv[pn] = ("const", defaults[pn].value)
+                    else:
+                        _err("get_file: call %s lacks an argument" % ast.unparse(e))
+                try:
+                    self.block(h.node.body, henv, h, depth + 1)
+                except _Returned as r:
+                    return r.value
+                return NONE_
+            for a in e.args:
+                if isinstance(a, ast.Call):
+                    self.ev(a, env, fn, depth)
+            if d in ("bytes", "bytearray") and len(e.args) == 1:
+                return self.ev(e.args[0], env, fn, depth)
+            return UNKNOWN
+        return UNKNOWN
+
+    def names_expr(self, e, fn):
+        try:
+            n = iter_lang(e, fn, self.world)
+        except AnalysisError:
+            return False
+        return not n.accs and not n.opaque and n.dropped is None
+
+    def truth(self, t, env, fn, depth):
+        if isinstance(t, ast.UnaryOp) and isinstance(t.op, ast.Not):
+            return not self.truth(t.operand, env, fn, depth)
+        if isinstance(t, ast.BoolOp):
+            if isinstance(t.op, ast.And):
+                return all(self.truth(v, env, fn, depth) for v in t.values)
+            return any(self.truth(v, env, fn, depth) for v in t.values)
+        if isinstance(t, ast.Compare) and len(t.ops) == 1:
+            op_, l, r = t.ops[0], t.left, t.comparators[0]
+            if isinstance(op_, (ast.In, ast.NotIn)) and self.names_expr(r, fn):
+                lv = self.ev(l, env, fn, depth)
+                if lv != ("name",):
+                    _err("get_file: membership test %s is not about the requested name" % ast.unparse(t))
+                present = self.w != "absent"
+                res = present if isinstance(op_, ast.In) else not present
+                self.trace.append("%s is %s" % (norm(t), res))
+                return res
+            # len(x) <op> 0
+            if isinstance(l, ast.Call) and dotted(l.func) == "len" and len(l.args) == 1 and isinstance(r, ast.Constant) and r.value == 0:
+                v = self.ev(l.args[0], env, fn, depth)
+                if v in (CONTENT, WRONG):
+                    n = 0 if self.w == "empty" else 1
+                    res = {ast.Eq: n == 0, ast.NotEq: n != 0, ast.Gt: n > 0, ast.GtE: True, ast.Lt: False, ast.LtE: n == 0}.get(type(op_))
+                    if res is not None:
+                        self.trace.append("%s is %s" % (norm(t), res))
+                        return res
+            lv, rv = self.ev(l, env, fn, depth), self.ev(r, env, fn, depth)
+            if isinstance(op_, (ast.Is, ast.IsNot, ast.Eq, ast.NotEq)) and rv[0] == "const":
+                if lv in (CONTENT, WRONG):
+                    same = (rv[1] in (b"", bytearray()) and self.w == "empty") if isinstance(op_, (ast.Eq, ast.NotEq)) else False
+                elif lv[0] == "const":
+                    same = lv[1] == rv[1] if isinstance(op_, (ast.Eq, ast.NotEq)) else (lv[1] is rv[1] or lv[1] == rv[1] and lv[1] in (None, True, False))
+                else:
+                    _err("get_file: condition %s is outside the analysable fragment" % ast.unparse(t))
+                res = same if isinstance(op_, (ast.Is, ast.Eq)) else not same
+                self.trace.append("%s is %s" % (norm(t), res))
+                return res
+            _err("get_file: condition %s is outside the analysable fragment" % ast.unparse(t))
+        v = self.ev(t, env, fn, depth)
+        if v in (CONTENT, WRONG):
+            res = self.w != "empty"
+        elif v[0] == "const":
+            res = bool(v[1])
+        else:
+            _err("get_file: condition %s is outside the analysable fragment" % ast.unparse(t))
+        self.trace.append("%s is %s" % (norm(t), res))
+        return res
+
+    # -- statements
+    def block(self, stmts, env, fn, depth):
+        for s in stmts:
+            self.stmt(s, env, fn, depth)
+
+    def stmt(self, s, env, fn, depth):
+        if isinstance(s, ast.Expr):
+            if isinstance(s.value, ast.Call):
+                self.ev(s.value, env, fn, depth)
+        elif isinstance(s, (ast.Assign, ast.AnnAssign)):
+            if isinstance(s, ast.AnnAssign) and s.value is None:
+                return
+            v = self.ev(s.value, env, fn, depth)
+            for t in (s.targets if isinstance(s, ast.Assign) else [s.target]):
+                if isinstance(t, ast.Name):
+                    env[t.id] = v
+                elif isinstance(t, (ast.Tuple, ast.List)):
+                    _err("get_file: tuple assignment is outside the fragment")
+        elif isinstance(s, ast.If):
+            self.block(s.body if self.truth(s.test, env, fn, depth) else s.orelse, env, fn, depth)
+        elif isinstance(s, ast.Return):
+            raise _Returned(self.ev(s.value, env, fn, depth) if s.value is not None else NONE_, s)
+        elif isinstance(s, ast.Raise):
+            if s.exc is None:
+                cur = env.get("$exc")
+                if cur is None:
+                    _err("get_file: bare raise outside a handler")
+                raise _Raised(cur, s)
+            e = s.exc.func if isinstance(s.exc, ast.Call) else s.exc
+            if isinstance(e, ast.Name) and env.get(e.id, (None,))[0] == "exc":
+                raise _Raised(env[e.id][1], s)
+            d = dotted(e)
+            if not d:
+                _err("get_file: raise %s is outside the fragment" % ast.unparse(s))
+            raise _Raised(d.split(".")[-1], s)
+        elif isinstance(s, ast.Try):
+            try:
+                try:
+                    self.block(s.body, env, fn, depth)
+                except _Raised as r:
+                    anc = self.mro(r.name)
+                    for h in s.handlers:
+                        names = _exc_names(h.type)
+                        if "<bare>" in names or any(n in anc for n in names):
+                            self.trace.append("`except %s` catches %s" % (", ".join(names), r.name))
+                            if h.name:
+                                env[h.name] = ("exc", r.name)
+                            old = env.get("$exc")
+                            env["$exc"] = r.name
+                            try:
+                                self.block(h.body, env, fn, depth)
+                            finally:
+                                env["$exc"] = old
+                            break
+                    else:
+                        raise
+                else:
+                    self.block(s.orelse, env, fn, depth)
+            finally:
+                if s.finalbody:
+                    self.block(s.finalbody, env, fn, depth)
+        elif isinstance(s, ast.Pass):
+            pass
+        else:
+            _err("get_file: statement `%s` is outside the analysable fragment" % norm(s)[:60])
+
+
 def _exc_names(t):
     if t is None:
         return ["<bare>"]
@@ -478,26 +734,6 @@ def _exc_names(t):
     return [d.split(".")[-1] if d else ast.unparse(t)]
 
 
-def _raises_class(stmts, cls):
-    """the block ends by raising `cls` on every structural path"""
-    if not stmts:
-        return False
-    last = stmts[-1]
-    if isinstance(last, ast.Raise) and last.exc is not None:
-        e = last.exc
-        if isinstance(e, ast.Call):
-            e = e.func
-        d = dotted(e)
-        return bool(d) and d.split(".")[-1] == cls
-    if isinstance(last, ast.If) and last.orelse:
-        return _raises_class(last.body, cls) and _raises_class(last.orelse, cls)
-    return False
-
-
-def _contains(node, target):
-    return any(n is target for n in ast.walk(node))
-
-
 def check_get_file(sink, world):
     fn = world.fn("get_file")
     params = fn.params()
@@ -505,69 +741,45 @@ def check_get_file(sink, world):
         _err("get_file: no name parameter")
     p = params[1]
     world.require(world.has_class("FileNotPresent"), "class FileNotPresent vanished")
-    reads = [c for c in walk_no_nested(fn.node) if isinstance(c, ast.Call) and dotted(c.func) == "self.zip.read"]
+    if fn.yields():
+        _err("get_file is a generator (outside the fragment)")
+    reads = 0
+    for wname, wdesc in WORLDS:
+        ex = FileExec(world, fn, wname)
+        env = {p: ("name",)}
+        outcome = None
+        try:
+            ex.block(fn.node.body, env, fn, 0)
+            outcome = ("return", NONE_, fn.node)
+        except _Returned as r:
+            outcome = ("return", r.value, r.node)
+        except _Raised as r:
+            outcome = ("raise", r.name, r.node)
+        reads += ex.reads
+        kind, val, node = outcome
+        why = ("; path: " + ", ".join(ex.trace)) if ex.trace else ""
+        shown = ("raises %s" % val) if kind == "raise" else "returns %s" % {CONTENT: "the entry's bytes", WRONG: "the bytes of a different entry", NONE_: "None"}.get(val, "const %r" % (val[1],) if val[0] == "const" else "an unknown value")
+        construct = "%s [%s]" % (norm(node) if not isinstance(node, ast.FunctionDef) else "falls off the end", wname)
+        if val == UNKNOWN and kind == "return":
+            _err("get_file: the returned value %s is outside the analysable fragment" % norm(node))
+        if wname in ("empty", "nonempty"):
+            ok = kind == "return" and val == CONTENT
+            sink.check("get_file/content", "get_file when %s" % wdesc, ok, fn.qualname, construct,
+                       "when %s, get_file(%s) %s instead of returning self.zip.read(%s)%s" % (wdesc, p, shown, p, why), node=node,
+                       witness=dict(world=wname, outcome=shown, path=ex.trace), detail="%s -> %s" % (wname, shown))
+        elif wname == "absent":
+            ok = kind == "raise" and val == "FileNotPresent"
+            sink.check("get_file/missing-entry", "get_file when %s" % wdesc, ok, fn.qualname, construct,
+                       "when %s, get_file(%s) %s instead of raising FileNotPresent%s" % (wdesc, p, shown, why), node=node,
+                       witness=dict(world=wname, outcome=shown, path=ex.trace), detail="%s -> %s" % (wname, shown))
+        else:
+            ok = kind == "raise" and val != "FileNotPresent"
+            sink.check("get_file/only-keyerror", "get_file when %s" % wdesc, ok, fn.qualname, construct,
+                       "when %s, get_file(%s) %s -- only the missing-entry KeyError may become FileNotPresent, a damaged entry must not be reported as absent or as data%s"
+                       % (wdesc, p, shown, why), node=node, witness=dict(world=wname, outcome=shown, path=ex.trace), detail="%s -> %s" % (wname, shown))
+        sink.count("get_file_worlds")
     if not reads:
-        _err("get_file: no call self.zip.read(...) (anchor vanished)")
-    reassigned = fn.assignments(p)
-    # --- (g1) what is returned
-    rets = fn.returns()
-    if not rets or fn.yields():
-        _err("get_file: no return statement")
-    good_reads = []
-    for r in rets:
-        v = r.value
-        if isinstance(v, ast.Name):
-            v = fn.local(v.id)
-        is_read = isinstance(v, ast.Call) and dotted(v.func) == "self.zip.read"
-        arg_ok = is_read and len(v.args) >= 1 and isinstance(v.args[0], ast.Name) and v.args[0].id == p and not reassigned \
-            and len(v.args) == 1 and not v.keywords
-        sink.check("get_file/content", "get_file returns zip.read(name)", bool(arg_ok), fn.qualname, r,
-                   "get_file returns %s, not the content self.zip.read(%s) of the requested entry" % (norm(r.value) if r.value else None, p), node=r,
-                   detail="return value is self.zip.read(%s), %s never reassigned" % (p, p))
-        if is_read:
-            good_reads.append((r, v))
-    sink.count("get_file_returns", len(rets))
-    # --- (g2)/(g3) mapping of the missing-entry error
-    for r, call in good_reads or [(None, reads[0])]:
-        tries = []
-        for t in walk_no_nested(fn.node):
-            if isinstance(t, ast.Try) and any(_contains(s, call) for s in t.body):
-                tries.append(t)
-        mapped = False
-        for t in tries:
-            for h in t.handlers:
-                names = _exc_names(h.type)
-                to_fnp = _raises_class(h.body, "FileNotPresent")
-                if to_fnp and any(n in ("KeyError", "LookupError", "Exception", "BaseException", "<bare>") for n in names):
-                    mapped = True
-                broader = [n for n in names if n != "KeyError"]
-                if broader and to_fnp:
-                    sink.check("get_file/only-keyerror", "only KeyError becomes FileNotPresent", False, fn.qualname,
-                               "except " + ", ".join(names),
-                               "get_file maps %s (not only the missing-entry KeyError) to FileNotPresent -- a corrupt entry would be reported as absent" % ", ".join(broader),
-                               node=h)
-                elif to_fnp:
-                    sink.check("get_file/only-keyerror", "only KeyError becomes FileNotPresent", True, fn.qualname, "except KeyError", "",
-                               detail="handler type is exactly KeyError")
-                if "KeyError" in names and not to_fnp:
-                    sink.check("get_file/missing-entry", "KeyError -> FileNotPresent", False, fn.qualname, h,
-                               "the KeyError of a missing entry is handled without raising FileNotPresent", node=h)
-                    mapped = None if mapped is False else mapped
-        if not mapped and mapped is not None:
-            # alternative shape: membership guard before the read
-            for s in fn.node.body:
-                if isinstance(s, ast.If) and isinstance(s.test, ast.Compare) and len(s.test.ops) == 1 and isinstance(s.test.ops[0], ast.NotIn) \
-                        and isinstance(s.test.left, ast.Name) and s.test.left.id == p and not s.orelse and _raises_class(s.body, "FileNotPresent"):
-                    try:
-                        n = iter_lang(s.test.comparators[0], fn, world)
-                    except AnalysisError:
-                        continue
-                    if not n.accs and n.dropped is None and (r is None or s.lineno < r.lineno):
-                        mapped = True
-        if mapped is not None:
-            sink.check("get_file/missing-entry", "KeyError -> FileNotPresent", bool(mapped), fn.qualname, call,
-                       "a missing entry is not mapped to FileNotPresent: %s is not guarded by `except KeyError: raise FileNotPresent(...)`" % norm(call),
-                       node=call, detail="self.zip.read(...) inside try with `except KeyError` whose body raises FileNotPresent")
+        _err("get_file: no call self.zip.read(...) is reached (anchor vanished)")
     sink.count("functions")
 
 
@@ -598,11 +810,14 @@ def check_zip_origin(sink, world):
 
 
 class World:
-    def __init__(self, fns, class_names, require):
+    def __init__(self, fns, info, require):
         self._fns = fns
-        self._classes = class_names
+        self.info = info if isinstance(info, dict) else dict(classes={c: [] for c in info})
+        self._classes = set(self.info.get("classes", {}))
         self.require = require
         self.uses_get_files = False
+        for f in fns.values():
+            f.world = self
 
     def fn(self, name):
         f = self._fns.get(name)
@@ -617,8 +832,10 @@ class World:
 FUNCS = ("get_files", "get_file", "get_dex_names", "get_all_dex", "is_multidex", "__init__")
 
 
-def core(sink, nodes, class_names, require):
-    world = World({k: Fn("APK." + k, v) for k, v in nodes.items()}, class_names, require)
+def core(sink, nodes, info, require):
+    info = dict(info)
+    info["methods"] = dict(info.get("methods", {}), **{k: v for k, v in nodes.items()})
+    world = World({k: Fn("APK." + k, v) for k, v in nodes.items()}, info, require)
     check_get_files(sink, world)
     check_zip_origin(sink, world)
     check_get_file(sink, world)
@@ -648,19 +865,25 @@ def run(ctx):
     ctx.require(not bad, "regexlang anchor model disagrees with CPython re on %r" % (bad[:3],))
     ctx.ob("regexlang/selfcheck", "anchor model vs CPython re on the checker's own table", True, "13 patterns x 3 operations x 15 subjects agree")
     sink = Sink(ctx, funcs)
-    core(sink, nodes, set(m.classes), ctx.require)
+    stores = set()
+    for n in ast.walk(cls.node):
+        if isinstance(n, ast.Attribute) and isinstance(n.ctx, (ast.Store, ast.Del)) and isinstance(n.value, ast.Name) and n.value.id in ("self", "cls", "APK"):
+            stores.add(n.attr)
+    info = dict(class_name="APK", classes={k: list(c.base_names) for k, c in m.classes.items()}, class_attrs=dict(cls.attrs),
+                module_consts=dict(m.assigns), methods={k: f.node for k, f in cls.methods.items()}, attr_stores=stores)
+    core(sink, nodes, info, ctx.require)
     ctx.floor("functions", 5)
     ctx.floor("name_set_sites", 3)
     ctx.floor("language_checks", 3)
     ctx.floor("regex_literals", 1)
     ctx.floor("zip_assignments", 1)
-    ctx.floor("get_file_returns", 1)
+    ctx.floor("get_file_worlds", 4)
     ctx.assume("apkInspector.headers.ZipEntry.read(name) returns the uncompressed bytes of the entry and raises KeyError for a name "
                "that is not in the central directory; ZipEntry.namelist() lists every central-directory name (external package)")
     ctx.assume("reference language for a root-level DEX entry name: fullmatch " + REFERENCE)
     ctx.note("names are str: \\d matches every Unicode decimal digit unless re.ASCII is given")
     if ctx.tier == "thorough":
-        _thorough(ctx, nodes, set(m.classes), sink)
+        _thorough(ctx, nodes, info, sink)
 
 
 # ---------------------------------------------------------------------------
@@ -786,7 +1009,7 @@ def _mutants(nodes):
     return out
 
 
-def _thorough(ctx, nodes, class_names, base_sink):
+def _thorough(ctx, nodes, info, base_sink):
     base = set(base_sink.failed)
     killed = total = silent = btotal = 0
     survivors, noisy = [], []
@@ -795,7 +1018,7 @@ def _thorough(ctx, nodes, class_names, base_sink):
             ast.fix_missing_locations(v)
         s = Sink()
         try:
-            core(s, mnodes, class_names, ctx.require)
+            core(s, mnodes, info, ctx.require)
             # same criterion as the known-findings protocol: a failing (rule, qualname, construct) key that today's tree does not have
             fired = any(k not in base for k in s.failed)
             err = None
